@@ -91,7 +91,8 @@ struct RingWorld : World {
 			Bytes c = content();
 			for (size_t i = 0; i < c.size(); ++i) if (c[i] != d[i]) fail("read", "after %s: mpt_queue_get returns %02x at %zu, stored is %02x", after, c[i], i, d[i]);
 		};
-		auto segs = [&](size_t &low, size_t &high) { size_t start = q.max - q.off; low = q.len > start ? start : q.len; high = q.len - low; };
+		// where the content physically lies (an offset equal to the capacity denotes position 0)
+		auto segs = [&](size_t &low, size_t &high) { size_t start = q.max ? q.max - q.off % q.max : 0; low = q.len > start ? start : q.len; high = q.len - low; };
 		auto pick = [&](const Op &op, bool free_rel) -> size_t {
 			size_t low, high; segs(low, high);
 			size_t stored = q.len, fre = q.max - q.len, base;
@@ -206,16 +207,23 @@ struct RingWorld : World {
 			}
 			case OP_RESIZE: case OP_PREPARE: {
 				size_t want = (op.a & 7) == 0 ? 0 : (size_t) op.c % 2300;
+				bool huge = (op.a & 7) == 7 && (op.c % 5) == 0;      // a size no allocation can satisfy: must be refused, nothing may change
+				if (huge) { want = SIZE_MAX - (size_t) (op.c % 64); st.hit("probe:huge_size_requested"); }
+				size_t max0 = q.max;
 				uint64_t fired; void *r = 0; size_t got = 0;
 				if (op.kind == OP_RESIZE) { Sut s(failn); r = mpt_queue_resize(&q, want); fired = g.fired; }
 				else { Sut s(failn); got = mpt_queue_prepare(&q, want); fired = g.fired; }
 				if (fired) st.hit("fault:allocfail");
 				log.ev("%s %zu%s -> %s max=%zu len=%zu", OPS[op.kind], want, fired ? " allocfail" : "", op.kind == OP_RESIZE ? (r ? "ok" : "null") : (got ? "ok" : "0"), q.max, q.len);
-				if (op.kind == OP_RESIZE) {
+				if (huge) {
+					if (op.kind == OP_RESIZE ? r != 0 : got != 0) fail("accepted-overflow", "%s(%zu) reports success", OPS[op.kind], want);
+					if (q.max != max0 || q.len != stored) fail("lost-on-refusal", "%s(%zu) was refused but left capacity %zu (was %zu) and %zu bytes (were %zu)", OPS[op.kind], want, q.max, max0, q.len, stored);
+				}
+				else if (op.kind == OP_RESIZE) {
 					if (!want) { d.clear(); if (q.max || q.len) fail("state", "resize(0) left max=%zu len=%zu", q.max, q.len); }
 					else if (r && want < stored) d.erase(d.begin(), d.begin() + (stored - want)); // documented: removes from the start
 					else if (!r && !fired) fail("refused-valid", "resize(%zu) failed without allocation fault", want);
-					else if (!r && want < stored && q.len != stored) d.erase(d.begin(), d.begin() + (stored - q.len)); // crop happened before the failed realloc
+					else if (!r && q.len != stored) fail("lost-on-refusal", "resize(%zu) reports failure but %zu of the %zu stored bytes are gone", want, stored - q.len, stored);
 					if (r && q.max != want) fail("state", "resize(%zu) gives max=%zu", want, q.max);
 				} else {
 					if (!fired && q.max - q.len < want) fail("refused-valid", "prepare(%zu) leaves %zu free", want, q.max - q.len);
@@ -309,6 +317,12 @@ struct RingWorld : World {
 					if (ep < b || ep + low > b + q.max) fail("bounds", "empty part [%zd,+%zu) leaves the storage of %zu bytes", ep - b, low, q.max);
 				} else if (fre) fail("refused-valid", "no empty part reported with %zu free", fre);
 				if (dp) { uint8_t *b = (uint8_t *) q.base; if ((uint8_t *) dp < b || (uint8_t *) dp + dl > b + q.max || dl > stored) fail("bounds", "data part leaves the storage"); }
+				if (stored) {
+					// the first data part is the longest run of stored bytes that lies in one piece, starting with the oldest byte
+					size_t plow, phigh; segs(plow, phigh);
+					if (!dp || dl != plow) fail("read", "first data part has %zu bytes, %zu of the %zu stored bytes lie in one piece at the start (off=%zu max=%zu)", dp ? dl : (size_t) 0, plow, stored, q.off, q.max);
+					for (size_t i = 0; i < dl; ++i) if (((uint8_t *) dp)[i] != d[i]) fail("read", "first data part holds %02x at %zu, a deque holds %02x", ((uint8_t *) dp)[i], i, d[i]);
+				}
 				abstract(op.kind, 1, 0);
 				break;
 			}
